@@ -189,7 +189,10 @@ type Env struct {
 }
 
 // NewLedgerEnv wires assets + delegation keepers over empty stores at the given height.
-func NewLedgerEnv(height int64, nOperators int) *Env {
+func NewLedgerEnv(height int64, nOperators int) *Env { return NewLedgerEnvAt(height, nOperators) }
+
+// NewLedgerEnvAt is NewLedgerEnv with a (possibly symbolic) height.
+func NewLedgerEnvAt(height int64, nOperators int) *Env {
 	akey := verifrt.StoreKey(assetstypes.StoreKey)
 	dkey := verifrt.StoreKey(delegationtypes.StoreKey)
 	cdc := verifrt.Codec()
